@@ -46,6 +46,7 @@ META = {
 }
 
 VALID = b'{"SECoP":"discover"}'
+WHOLE_UP_TO = 1024      # Spec.wholeUpTo
 
 
 # ----------------------------------------------------------------------------------------
@@ -217,8 +218,11 @@ def requests_for(case, obs, bufsize):
     base = {'p': 'C19', 'id': cps(case['id']), 'version': cps(case['version']),
             'desc': None if case['desc'] is None else cps(case['desc']),
             'ifaces': [split_iface(i) for i in case['ifaces']]}
-    decs = [decode_oracle(bytes.fromhex(hx), bufsize) for hx, _ in case['dgs']]
-    events = [{'dg': list(bytes.fromhex(hx)), 'addr': a, 'dec': d} for (hx, a), d in zip(case['dgs'], decs)]
+    # the model decodes what the implementation's recvfrom(bufsize) hands over; the Spec judges what a responder
+    # that receives datagrams of up to 1024 bytes whole (Spec.wholeUpTo) sees
+    mdecs = [decode_oracle(bytes.fromhex(hx), bufsize) for hx, _ in case['dgs']]
+    decs = [decode_oracle(bytes.fromhex(hx), max(WHOLE_UP_TO, bufsize)) for hx, _ in case['dgs']]
+    events = [{'dg': list(bytes.fromhex(hx)), 'addr': a, 'dec': d} for (hx, a), d in zip(case['dgs'], mdecs)]
     node = dict(node_json(case), p='C19')
     received = [{'addr': a, 'dec': d} for (_, a), d in zip(case['dgs'], decs)]
     steps = [{'addr': r['addr'], 'dec': r['dec'], 'sends': s} for r, s in zip(received, obs['steps'])]
